@@ -146,7 +146,7 @@ def draw_reject(h):
 
 @st.composite
 def plan_st(draw, tier):
-    cfg = draw(gen.config_st(arm_kinds=("int", "str", "float", "mix"), max_arms=4, with_binarizer=True, scale_ok=True,
+    cfg = draw(gen.config_st(metrics=gen.SAFE_METRICS, arm_kinds=("int", "str", "float", "mix"), max_arms=4, with_binarizer=True, scale_ok=True,
                              defaults_ok=True))
     h = gen.History(draw, cfg, max_rows=7, series_queries=True)
     n_rej = 0
